@@ -2197,6 +2197,13 @@ def run(tier):
               'constants of sort S is S (get_default_constants, get_sort and '
               'get_bv_width folded on literal sorts)',
               'a default constant "of the same sort" is proposed for a term of another sort, or is itself re-typed and replaced again')
+    from .. import probes
+    chk.guard(probes.report_inference, chk, prog, 'C16.R17',
+              'get_sort / get_bv_width / get_bv_constant_value, folded on a '
+              'table of closed literal terms, give the sort, width and value '
+              'SMT-LIB fixes for them (or "unknown"), and only "unknown" '
+              'when an operand has no known width',
+              'a sort or width that is neither unknown nor right: replacements "of the same sort" are ill-sorted')
     extra = None
     if tier == 'thorough':
         from .. import selftest
